@@ -74,6 +74,7 @@ def run(ctx: Ctx, chk) -> None:
     chk.run_rule(load_guard, ctx)
     chk.run_rule(inplace3, ctx)
     chk.run_rule(save_serial, ctx)
+    chk.run_rule(open_flags, ctx)
     # replace targets
     for fl in pers.methods.values():
         for f in fl:
@@ -86,6 +87,44 @@ def run(ctx: Ctx, chk) -> None:
                         chk.ok(rule, fkey(f, node), "replace onto the live path", ctx.loc(f, node))
                     else:
                         chk.refute(rule, fkey(f, node), f"`{norm(node)}` does not move the new file onto the live path", ctx.loc(f, node))
+
+
+def open_flags(ctx: Ctx, chk) -> None:
+    rule = "OPEN-FLAGS"
+    chk.rule(rule, "an open() of the persistence file for writing keeps the flags its mode stands for: no `opener=` that builds its own flag word (mode 'w' is O_WRONLY|O_CREAT|O_TRUNC only through the flags handed to the opener - an opener that ignores them does not truncate, so a shorter new document leaves the tail of the old one behind and the file no longer parses)")
+    pers = ctx.cls(PERS)
+    n = 0
+    for fl in pers.methods.values():
+        for f0 in fl:
+            f = ctx.inl(f0)
+            for node in ctx.own_nodes(f):
+                if not (isinstance(node, ast.Call) and any(o in callee_names(ctx, f, node) for o in OPENERS)):
+                    continue
+                n += 1
+                op = next((kw.value for kw in node.keywords if kw.arg == "opener"), None)
+                chk.instance(rule)
+                key = fkey(f0, node) + "::opener"
+                if op is None or (isinstance(op, ast.Constant) and op.value is None):
+                    chk.ok(rule, key, "no custom opener: the mode's own flags are used", ctx.loc(f, node), sample=False)
+                    continue
+                d = ctx.prog.resolve_expr(f.module, op) if isinstance(op, (ast.Name, ast.Attribute)) else None
+                h = d.obj if d is not None and d.kind == "func" else None
+                if h is None and isinstance(op, ast.Lambda):
+                    params = [a.arg for a in op.args.args]
+                    body_nodes = list(ast.walk(op.body))
+                elif h is not None:
+                    params = [p for p in h.positional_params if p not in ("self", "cls")]
+                    body_nodes = list(ctx.own_nodes(h))
+                else:
+                    raise AnalysisError(f"OPEN-FLAGS: opener `{norm(op)[:40]}` is not a repository function or lambda")
+                flags_param = params[1] if len(params) > 1 else None
+                opens = [c for c in body_nodes if isinstance(c, ast.Call) and norm(c.func).rsplit(".", 1)[-1] == "open"]
+                passes = bool(opens) and all(flags_param is not None and len(c.args) > 1 and any(isinstance(x, ast.Name) and x.id == flags_param for x in ast.walk(c.args[1])) for c in opens)
+                if passes:
+                    chk.ok(rule, key, "the opener hands the flags of the mode on to os.open", ctx.loc(f, node))
+                else:
+                    chk.refute(rule, key, f"`{norm(node)[:70]}`: the opener `{norm(op)[:30]}` does not pass the flags it is given to os.open - the O_TRUNC (and O_CREAT / O_APPEND) of the mode are lost: the new document is written over the old one and whatever is longer in the old one stays behind", ctx.loc(f, node))
+    chk.floor(rule, "open() sites of Persistence", n, 2)
 
 
 def save_serial(ctx: Ctx, chk) -> None:
